@@ -246,6 +246,22 @@ class FakeSnowflakeCursor:
 
         result_sql = None
 
+        # CREATE TABLE IF NOT EXISTS on a table that already exists changes nothing, including its recorded metadata
+        create_is_noop = False
+        if (
+            cmd == "CREATE TABLE"
+            and transformed.args.get("exists")
+            and (table := transformed.find(exp.Table))
+            and (catalog := table.catalog or self._conn.database)
+            and (schema := table.db or self._conn.schema)
+        ):
+            create_is_noop = bool(
+                self._duck_conn.execute(
+                    "SELECT 1 FROM duckdb_tables() WHERE database_name = ? AND schema_name = ? AND table_name = ?",
+                    (catalog, schema, table.name),
+                ).fetchall()
+            )
+
         try:
             if transformed.find(exp.Select) and (seed := transformed.args.get("seed")):
                 # set the seed with its own statement, so the query itself is what gets described later
@@ -356,7 +372,7 @@ class FakeSnowflakeCursor:
 
         if (
             cmd == "CREATE TABLE"
-            and not transformed.args.get("exists")
+            and not create_is_noop
             and (table := transformed.find(exp.Table))
             and (catalog := table.catalog or self._conn.database)
             and (schema := table.db or self._conn.schema)
@@ -370,13 +386,15 @@ class FakeSnowflakeCursor:
             catalog = table.catalog or self._conn.database
             schema = table.db or self._conn.schema
             assert catalog and schema
-            if comment is not None:
+            if comment is not None and not create_is_noop:
                 self._duck_conn.execute(info_schema.insert_table_comment_sql(catalog, schema, table.name, comment))
             # return the statement's status rather than the result of the insert above
             result_sql = result_sql or SQL_SUCCESS
 
-        if (text_lengths := cast(list[tuple[str, int]], transformed.args.get("text_lengths"))) and (
-            table := transformed.find(exp.Table)
+        if (
+            (text_lengths := cast(list[tuple[str, int]], transformed.args.get("text_lengths")))
+            and (table := transformed.find(exp.Table))
+            and not create_is_noop
         ):
             # record text lengths
             catalog = table.catalog or self._conn.database
